@@ -144,23 +144,31 @@ Definition only_level_marked (t t' : item) : bool :=
                     || match assocN (id_of n) (status_before t) with Some Seen => true | _ => false end
                     || existsb (N.eqb (id_of n)) lvl) (flatten t').
 
-Fixpoint mon_hist (prev_store : list (N * N)) (ref : list (N * kind)) (steps : list (sop * sobs)) : bool * bool :=
+(* the store holds exactly the reference: an entry for the URLs checked so far and no other, each
+   with the strongest type it was checked as *)
+Definition store_is_ref (ref : list (N * kind)) (obs : list (N * N)) : bool :=
+  forallb (fun '(k, c) => c =? code_of (assocN k ref)) obs.
+
+Fixpoint mon_hist (prev_store : list (N * N)) (ref : list (N * kind)) (steps : list (sop * sobs)) : bool * bool * bool :=
   match steps with
-  | [] => (true, true)
+  | [] => (true, true, true)
   | (o, ob) :: r =>
     match op_tree o with
-    | None => mon_hist (so_store ob) ref r
+    | None => let '(a', oo', e') := mon_hist (so_store ob) ref r in
+              (a', oo', store_is_ref ref (so_store ob) && e')
     | Some t =>
       let '(ref', a, oo) := mon_level (match o with SPre _ => true | _ => false end) t prev_store (so_store ob) [] ref (level_after t (so_tree ob)) in
-      let '(a', oo') := mon_hist (so_store ob) ref' r in
-      (a && a', oo && only_level_marked t (so_tree ob) && oo')
+      let '(a', oo', e') := mon_hist (so_store ob) ref' r in
+      (a && a', oo && only_level_marked t (so_tree ob) && oo', store_is_ref ref' (so_store ob) && e')
     end
   end.
 
 (* m0 seen_after_record *)
-Definition mon_after_record (c : scase) : bool := fst (mon_hist [] [] (sc_steps c)).
+Definition mon_after_record (c : scase) : bool := fst (fst (mon_hist [] [] (sc_steps c))).
 (* m1 seen_only_if_reported *)
-Definition mon_only_if_reported (c : scase) : bool := snd (mon_hist [] [] (sc_steps c)).
+Definition mon_only_if_reported (c : scase) : bool := snd (fst (mon_hist [] [] (sc_steps c))).
+(* m6 store_exact *)
+Definition mon_store_exact (c : scase) : bool := snd (mon_hist [] [] (sc_steps c)).
 
 (* m2 no_two_nonseed_same_url: after preprocess no URL is held by two non-seed nodes *)
 Definition mon_no_two (c : scase) : bool :=
@@ -195,7 +203,7 @@ Definition mon_key_det (c : scase) : bool :=
   forallb (fun '(r1, c1) => forallb (fun '(r2, c2) => negb (r1 =? r2) || (c1 =? c2)) (sc_keys c)) (sc_keys c).
 
 Definition mons (l : list scase) :=
-  mon_idx [mon_after_record; mon_only_if_reported; mon_no_two; mon_monotone; mon_requests; mon_key_det] l.
+  mon_idx [mon_after_record; mon_only_if_reported; mon_no_two; mon_monotone; mon_requests; mon_key_det; mon_store_exact] l.
 
 (* ================================================================================== *)
 (* crawl HQ: driver "hqseen"                                                           *)
